@@ -108,6 +108,16 @@ def run(chk: common.Check):
         path = c16.custom_cfg(ch, extra_lines=extra)
         cfgs.append(path)
         cases.append((f"1HPX.pdb with {ch or list(extra)}", structures.read("1HPX.pdb"), ["-p", path]))
+    # the pKa window of the pair screen moved across existing pairs: one member inside, one outside [min_pka, max_pka]
+    for nm, ch in [("3SGB.pdb", {"max_pka": "10.5"}), ("1HPX.pdb", {"min_pka": "4.5", "max_pka": "9.0"})] + \
+                  ([("3SGB.pdb", {"max_pka": "10.8"}), ("1FTJ-Chain-A.pdb", {"max_pka": "10.5"}), ("1HPX.pdb", {"min_pka": "5.5"}), ("4DFR.pdb", {"max_pka": "10.4"})] if chk.thorough else []):
+        path = c16.custom_cfg(ch)
+        cfgs.append(path)
+        cases.append((f"{nm} with {ch}", structures.read(nm), ["-p", path]))
+    # a penalised group (side chain of a chain start, covalently coupled to its own N+) that is non-covalently coupled to a group elsewhere:
+    # 1HPX with chain B starting at ASP 25
+    hpx = structures.read("1HPX.pdb")
+    cases.append(("1HPX.pdb with chain B cut to 25-99", "\n".join(l for l in hpx.splitlines() if not (l[:6] == "ATOM  " and l[21] == "B" and int(l[22:26]) < 25)) + "\n", []))
     # the dimer pulled apart a little: pairs that pass the interaction / pKa tests but fail on the swap-shift criterion
     from decimal import Decimal as _D
     for dx in (1.5, 2.0):
@@ -144,11 +154,13 @@ def run(chk: common.Check):
                 for h in g.non_covalently_coupled_groups:
                     if g not in h.non_covalently_coupled_groups:
                         found.append(("coupling-asymmetric", f"{name}: {g.label} lists {h.label} as coupled but not vice versa", {"case": name}))
-                s = g.get_determinant_string()
-                first = s.split("\n")[0] if s else ""
-                star = len(first) > 16 and first[16] == "*"
-                if s and star != (len(g.non_covalently_coupled_groups) > 0):
-                    found.append(("star-mismatch", f"{name}: {g.label} star={star} but coupled partners={[x.label for x in g.non_covalently_coupled_groups]}", {"case": name}))
+                for rpg in (False, True):
+                    s = g.get_determinant_string(rpg)
+                    first = s.split("\n")[0] if s else ""
+                    star = len(first) > 16 and first[16] == "*"
+                    if s and star != (len(g.non_covalently_coupled_groups) > 0):
+                        found.append(("star-mismatch", f"{name}: {g.label} star={star} (remove_penalised_group={rpg}) but coupled partners={[x.label for x in g.non_covalently_coupled_groups]}",
+                                      {"case": name, "pdb_text": text if len(text) < 250000 else None}))
         # ---- trace replay (the swaps are executed by the model)
         replayed = chk.cov["traces_validated_against_impl"]
         if (sw and (chk.thorough or replayed < 3 or (replayed < 5 and "twins" in name))) or (chk.thorough and replayed < 12):
